@@ -1,6 +1,7 @@
 package drv
 
 import (
+	"runtime"
 	"time"
 
 	"github.com/jhump/grpctunnel"
@@ -122,6 +123,12 @@ func (s *Session) exec(st Step) (bool, string) {
 		}
 		s.emit("ctl", tr.E{"what": "cancel", "rpc": st.Rpc})
 		cancel()
+	case "heap":
+		// the live heap of the process after a full collection (what the endpoints hold on to right now)
+		runtime.GC()
+		var ms runtime.MemStats
+		runtime.ReadMemStats(&ms)
+		s.emit("heap", tr.E{"mb": int64(ms.HeapAlloc >> 20)})
 	case "advance":
 		s.emit("ctl", tr.E{"what": "advance", "ms": st.Ms})
 		time.Sleep(time.Duration(st.Ms) * time.Millisecond)
